@@ -518,7 +518,18 @@ func runC14Trav(sc C14Sc, c *kit.Case) *kit.Violation {
 			mu.Lock()
 			closedNow = true
 			mu.Unlock()
-			sv.S.Close()
+			closeDone := make(chan struct{})
+			simnet.Go(func() { sv.S.Close(); close(closeDone) })
+			select {
+			case <-closeDone:
+			case <-time.After(10 * time.Second):
+				cf()
+				if ok, who := sv.C.AllBlocked(); !ok {
+					c.Inconclusive = "Close still running after 10 s with runnable goroutines: " + who
+					return nil
+				}
+				return kit.Violatef("C14:operation-never-returned", "%s: Server.Close() did not return although every module goroutine is blocked", what)
+			}
 		}
 		var err error
 		// an operation over n addresses queries each at most once per lookup (a handful of lookups per
